@@ -174,8 +174,9 @@ func (ap *app) witness(ctx context.Context, format string, args ...interface{}) 
 	if width == 0 || !ap.isTerminal {
 		fmt.Fprintln(ap.cfg.narration, s)
 	} else {
-		if len(s) > 2*width/3-3 {
-			s = s[:2*width/3-3] + "..."
+		// (On a very narrow terminal there is no room at all.)
+		if n := 2*width/3 - 3; n >= 0 && len(s) > n {
+			s = s[:n] + "..."
 		}
 		fmt.Fprintf(ap.cfg.narration, "%*s%s\n", width/3-3, " ", s)
 	}
@@ -194,8 +195,8 @@ func (ap *app) judge(ctx context.Context, u urgency, sym, format string, args ..
 	if width == 0 || !ap.isTerminal {
 		fmt.Fprintln(ap.cfg.narration, s)
 	} else {
-		if len(s) > width/3-3 {
-			s = s[:width/3-3] + "..."
+		if n := width/3 - 3; n >= 0 && len(s) > n {
+			s = s[:n] + "..."
 		}
 		fmt.Fprintf(ap.cfg.narration, "%*s%s%s%s\n", 2*width/3-1, " ",
 			ttycolor.StdoutProfile[ttycolor.Code(u)],
